@@ -728,3 +728,24 @@ func init() {
 		c.Expect(1, n, "Prefix computations in DistinctNetSet.key")
 	})
 }
+
+func init() {
+	extendProp("C53", "An update is stored only after its Merkle branches were checked: in CommitteeChain.InsertUpdate every write of the update or of the next committee lies behind a successful LightClientUpdate.Validate (the signature alone covers the attested header, not the next-committee root).", nil, func(c *Ctx) {
+		c.Rule("DOM/C53.validated")
+		bl := "beacon/light"
+		f := c.Fn(bl, "(*CommitteeChain).InsertUpdate")
+		if f == nil {
+			return
+		}
+		var adds []Site
+		eachInstr(f, func(in ssa.Instruction) {
+			if call, ok := in.(*ssa.Call); ok {
+				if cal := call.Call.StaticCallee(); cal != nil && cal.Name() == "add" {
+					adds = append(adds, Site{f, in})
+				}
+			}
+		})
+		c.Expect(2, len(adds), "canonical store additions in InsertUpdate")
+		c.Dom("branches-verified", f, adds, "store addition", GErrChecked("update.Validate()", c.Calls(f, "(*beacon/types.LightClientUpdate).Validate")))
+	})
+}
